@@ -44,7 +44,7 @@ class Fn:
                     self.defs.setdefault(l0['referencedDecl']['name'], []).append(n['inner'][1])
         self.env = Env({})
 
-    def rd(self, node: Dict[str, Any], depth: int = 0) -> lx.IR:
+    def rd(self, node: Dict[str, Any], depth: int = 0, plain: bool = False) -> lx.IR:
         """the expression as IR with locals that merely name a value read through: a local with exactly one definition (declaration
         initialiser or a single assignment) that is never modified otherwise (`uint64_t* dst = m->flat + lo;`, `size_t bytes = n *
         sizeof(T);`) reads as that value. casts are already dropped by c_ir; sizeof reads as the type it measures."""
@@ -60,7 +60,14 @@ class Fn:
         bind: Dict[str, lx.IR] = {}
         params = set(self.cu.params(self.name))
         for nm, ds in self.defs.items():
-            if len(ds) == 1 and nm not in modified and nm not in params and nm not in RD_KEEP and depth < 4:
+            if len(ds) == 1 and nm not in modified and nm not in params and depth < 4:
+                if plain:
+                    # name-independent reading: every local whose one definition is a plain expression (no choice, no call) reads
+                    # as that expression; a local defined by a conditional (a min / max) or a call stays a quantity of its own
+                    if any(x.get('kind') in ('ConditionalOperator', 'CallExpr') for x in walk(ds[0])):
+                        continue
+                elif nm in RD_KEEP:
+                    continue
                 bind[nm] = ds[0]            # type: ignore[assignment]
         ir = c_ir(node, self.cu.src_of)
 
@@ -492,7 +499,146 @@ def _judge_memrange(rep: Report, cu: CUnit, fn: Fn, c: Dict[str, Any]) -> None:
             r2 in ('((hi-lo)*sizeof(uint64_t))', '(sizeof(uint64_t)*(hi-lo))') and ('<', 'lo', 'hi') in facts
         rep.check(ok, 'C11.BOUNDS', construct, 'range [lo, hi) with page_start <= lo < hi <= min(page_end, low_max_end) (C07.COPYIN clamps)', site)
         return
+    # neither named idiom: the same argument made from what the code says, whatever the locals are called
+    proof = _memrange_proof(cu, fn, c)
+    if proof:
+        rep.ok('C11.BOUNDS', construct, proof, site)
+        return
     rep.fail('C11.BOUNDS', construct, 'unaudited mem* range', site)
+
+
+def _value_bounds(cu: CUnit, fn: Fn, name: str, site: Dict[str, Any]) -> Tuple[Set[str], Set[str]]:
+    """(L, U): expressions (plain reading, see Fn.rd) with L <= name <= U at the site. each definition `name = (a < b) ? a : b`
+    bounds it above by a and b (a max() below), any other definition by its own value on both sides; all definitions must agree.
+    a clamp `if (name > X) name = X;` that follows every other definition and precedes the site adds X to U (its own assignment
+    is not a definition in that sense)."""
+    from .c07 import _minmax
+    P = lambda n: fn.rd(n, plain=True)
+    defs = list(fn.defs.get(name, []))
+    clamps: List[Tuple[str, Dict[str, Any]]] = []
+    for n in walk(cu.body(fn.name)):
+        if n.get('kind') != 'IfStmt' or len(n.get('inner', [])) != 2:
+            continue
+        t = c_ir(n['inner'][0], cu.src_of)
+        if not (t[0] == 'cmp' and len(t[1]) == 1):
+            continue
+        a_, b_, op = t[2][0], t[2][1], t[1][0]
+        x = b_ if (lx.show(a_) == name and op in ('>', '>=')) else a_ if (lx.show(b_) == name and op in ('<', '<=')) else None
+        if x is None:
+            continue
+        asg = [y for y in walk(n['inner'][1]) if is_assign(y)]
+        if len(asg) == 1 and cu.src_of(asg[0]['inner'][0]) == name and c_ir(asg[0]['inner'][1], cu.src_of) == x:
+            clamps.append((lx.show(P(asg[0]['inner'][1])), n))
+            defs = [d for d in defs if d is not asg[0]['inner'][1]]
+    lows: Optional[Set[str]] = None
+    ups: Optional[Set[str]] = None
+    for d in defs:
+        ir = c_ir(d, cu.src_of)
+        mm = None
+        if ir[0] == 'cond' and ir[1][0] == 'cmp' and len(ir[1][1]) == 1:
+            # (a < b) ? a : b is min(a, b); (a > b) ? a : b is max(a, b) - compared as written, shown in the plain reading
+            op = ir[1][1][0]
+            ca, cb, x_, y_ = ir[1][2][0], ir[1][2][1], ir[2], ir[3]
+            if {lx.show(x_), lx.show(y_)} == {lx.show(ca), lx.show(cb)}:
+                first = lx.show(x_) == lx.show(ca)
+                kind = ('min' if first else 'max') if op in ('<', '<=') else ('max' if first else 'min') if op in ('>', '>=') else None
+                if kind:
+                    sub_ = {k_: fn.rd(v_, plain=True) for k_, v_ in ()}
+                    both = {lx.show(_plain_ir(fn, ca)), lx.show(_plain_ir(fn, cb))}
+                    mm = (kind, both)
+        if mm is None:
+            v = {lx.show(P(d))}
+            lo_d, up_d = v, set(v)
+        else:
+            lo_d, up_d = (set(), mm[1]) if mm[0] == 'min' else (mm[1], set())
+        lows = lo_d if lows is None else lows & lo_d
+        ups = up_d if ups is None else ups & up_d
+    lows, ups = set(lows or ()), set(ups or ())
+    sp_site = cu._span(site)
+    for x, n in clamps:
+        sp = cu._span(n)
+        later_defs = [d for d in defs if cu._span(d) and sp and cu._span(d)[0] > sp[0]]
+        if sp and sp_site and sp[1] <= sp_site[0] and not later_defs:
+            ups.add(x)
+    return lows, ups
+
+
+def _plain_ir(fn: Fn, ir: lx.IR) -> lx.IR:
+    """an IR expression in the plain reading (locals with a plain single definition substituted)"""
+    if isinstance(ir, tuple):
+        if ir and ir[0] == 'sym':
+            ds = fn.defs.get(ir[1], [])
+            if len(ds) == 1 and ir[1] not in fn.cu.params(fn.name) and ir[1] not in getattr(fn, '_modified', set()) and not any(
+                    x.get('kind') in ('ConditionalOperator', 'CallExpr') for x in walk(ds[0])):
+                return fn.rd(ds[0], plain=True)
+            return ir
+        return tuple(_plain_ir(fn, x) for x in ir)
+    if isinstance(ir, list):
+        return [_plain_ir(fn, x) for x in ir]
+    return ir
+
+
+def _memrange_proof(cu: CUnit, fn: Fn, c: Dict[str, Any]) -> Optional[str]:
+    """memset / memcpy into the flat window, proved from the code, whatever the locals are called: the destination is FLAT + A with
+    FLAT the member that received malloc(W * sizeof(elem)); the byte count is (B - A) * sizeof(elem); A < B is known at the call;
+    B <= W by B's definitions (a min() with W, or a clamp `if (B > W) B = W`). a memcpy source SRC + (A - P) out of a page of
+    PAGE_WORDS words additionally needs P <= A (A is a max() with P) and B <= E for a local E defined as P + PAGE_WORDS.
+    A and B are the locals as the call names them (through pointer-naming locals); everything else is compared in the plain
+    reading."""
+    a = call_args(c)
+    fn.rd(a[0])                                         # (initialises the modified-locals set)
+    d0, cnt = fn.rd(a[0], plain=True), fn.rd(a[2], plain=True)
+    # keep A and B symbolic: re-read with only pointer / size naming locals substituted
+    def shallow(n: Dict[str, Any]) -> lx.IR:
+        ir = c_ir(n, cu.src_of)
+        for _ in range(3):
+            if ir[0] == 'sym' and len(fn.defs.get(ir[1], [])) == 1 and ir[1] not in cu.params(fn.name):
+                ir = c_ir(fn.defs[ir[1]][0], cu.src_of)
+        return ir
+    d0, cnt = shallow(a[0]), shallow(a[2])
+    if not (d0[0] == 'bin' and d0[1] == '+' and cnt[0] == 'bin' and cnt[1] == '*'):
+        return None
+    flat, A = d0[2], d0[3]
+    span, sz = (cnt[2], cnt[3]) if cnt[3][0] == 'other' else (cnt[3], cnt[2])
+    if not (sz[0] == 'other' and str(sz[1]).startswith('sizeof(') and span[0] == 'bin' and span[1] == '-' and span[3] == A):
+        return None
+    B = span[2]
+    if A[0] != 'sym' or B[0] != 'sym':
+        return None
+    facts = {(op, lx.show(x), lx.show(y)) for op, x, y in fn.atomic_facts(c)}
+    if ('<', A[1], B[1]) not in facts and ('>', B[1], A[1]) not in facts:
+        return None
+    # the capacity of the destination: the count of the malloc assigned to that member in this function
+    W = None
+    for n in walk(cu.body(fn.name)):
+        if is_assign(n) and lx.show(c_ir(n['inner'][0], cu.src_of)) == lx.show(flat):
+            for m_ in walk(n['inner'][1]):
+                if m_.get('kind') == 'CallExpr' and callee(m_) == 'malloc':
+                    pr = fn.rd(call_args(m_)[0], plain=True)
+                    if pr[0] == 'bin' and pr[1] == '*' and sz in (pr[2], pr[3]):
+                        W = lx.show(pr[3] if pr[2] == sz else pr[2])
+    if W is None:
+        return None
+    _lb, ub = _value_bounds(cu, fn, B[1], c)
+    if W not in ub:
+        return None
+    txt = f'range [{A[1]}, {B[1]}) of {lx.show(flat)} ({W} elements): {A[1]} < {B[1]} at the call and {B[1]} <= {W} by its definitions {sorted(ub)[:3]}'
+    if callee(c) == 'memcpy':
+        s0 = shallow(a[1])
+        if not (s0[0] == 'bin' and s0[1] == '+' and s0[3][0] == 'bin' and s0[3][1] == '-' and s0[3][2] == A and s0[3][3][0] == 'sym'):
+            return None
+        Pn = s0[3][3][1]
+        Pv = lx.show(_plain_ir(fn, s0[3][3]))
+        la, _ = _value_bounds(cu, fn, A[1], c)
+        try:
+            pw = cu.macro_int('PAGE_WORDS')
+        except AnalysisError:
+            return None
+        ends = [u for u in ub if u in (f'({Pv}+{pw})', f'({pw}+{Pv})', f'({Pv}+PAGE_WORDS)', f'(PAGE_WORDS+{Pv})')]
+        if not ({Pn, Pv} & la) or not ends or not lx.show(s0[2]).endswith('.words'):
+            return None
+        txt += f'; source offset {A[1]} - {Pn} in [0, PAGE_WORDS): {Pn} <= {A[1]} and {B[1]} <= {ends[0]} = {Pn} + PAGE_WORDS'
+    return txt
 
 
 # ---------------------------------------------------------------- C11.OVERFLOW / ALLOC / SHIFT
